@@ -229,6 +229,10 @@ fn empirical_nohash(case: &PairCase, l: usize, m: usize, t: u64, base: u64) -> R
     Ok(v)
 }
 
+/// when set, every instance is reseeded through the public change_rng_seed() before use and again every 64 labellings
+/// (as the crate's own tests do between trials); the oracle does not depend on the seed
+static RESEED: std::sync::atomic::AtomicBool = std::sync::atomic::AtomicBool::new(false);
+
 /// fraction of equal positions for T disjoint labellings of the symbols
 fn empirical(case: &PairCase, l: usize, m: usize, t: u64, base: u64) -> Result<Vec<f64>, String> {
     let nsym = case.a.iter().chain(case.b.iter()).max().map(|x| *x as u64 + 1).unwrap_or(1);
@@ -239,8 +243,15 @@ fn empirical(case: &PairCase, l: usize, m: usize, t: u64, base: u64) -> Result<V
             let ts: Vec<u64> = (ci * 256..((ci + 1) * 256).min(t)).collect();
             crate::common::guarded_mut(|| {
                 let mut h = ProbOrdMinHash2::<FnvHasher>::new(m as u32, l);
+                let reseed = RESEED.load(std::sync::atomic::Ordering::Relaxed);
+                if reseed {
+                    h.change_rng_seed();
+                }
                 let mut out = Vec::with_capacity(ts.len());
                 for tt in ts {
+                    if reseed && tt % 64 == 63 {
+                        h.change_rng_seed();
+                    }
                     let o = base.wrapping_add(tt * nsym);
                     let sa: Vec<u64> = case.a.iter().map(|s| o + *s as u64).collect();
                     let sb: Vec<u64> = case.b.iter().map(|s| o + *s as u64).collect();
@@ -561,6 +572,52 @@ pub fn run(ctx: &Ctx) -> i32 {
             }
         }
     }
+    // instances reseeded through change_rng_seed(): pairs in which one sequence has exactly l elements, and two others
+    RESEED.store(true, std::sync::atomic::Ordering::Relaxed);
+    for c in catalogue().iter().filter(|c| ["prefix-of", "run-then-return", "disjoint", "suite-pattern-1", "transposition"].contains(&c.name)) {
+        for l in 1..=c.max_l.min(4) {
+            if l > c.a.len().min(c.b.len()) {
+                continue;
+            }
+            let (target, _) = omh_similarity(&c.a, &c.b, l);
+            for &m in &[1usize, 8] {
+                configs += 1;
+                let tt = 20_000u64;
+                let b0 = (base << 8) + (configs << 36);
+                let emp = match empirical(c, l, m, tt, b0) {
+                    Ok(v) => v,
+                    Err(e) => {
+                        ctx.violation("hash_set-panic:reseeded", &format!("{} l={} m={} after change_rng_seed(): {}", c.name, l, m, e), json!({"kind": "e2e-reseeded", "name": c.name, "l": l, "m": m}));
+                        continue;
+                    }
+                };
+                evals += 2 * tt;
+                let (mean, se0) = mean_se(&emp);
+                let se = se0.max((target * (1. - target) / (tt as f64 * m as f64)).sqrt()).max(1e-9);
+                let z = (mean - target) / se;
+                let exact_case = target == 0. || target == 1.;
+                let mut bad = if exact_case { (mean - target).abs() > 1e-12 } else { z.abs() > 6. };
+                let mut z2 = f64::NAN;
+                if bad && !exact_case {
+                    if let Ok(emp2) = empirical(c, l, m, tt * 4, b0 + (1u64 << 35)) {
+                        evals += 8 * tt;
+                        let (mean2, se2) = mean_se(&emp2);
+                        z2 = (mean2 - target) / se2.max(1e-9);
+                        bad = z2.abs() > 6. && z2.signum() == z.signum();
+                    }
+                }
+                if bad {
+                    ctx.violation(
+                        &format!("collision-probability:reseeded:{}:l={}", c.name, l),
+                        &format!("instances reseeded through change_rng_seed(): sequences {:?} / {:?}, l={}, m={}: mean fraction of equal positions {:.5} over {} labellings, order-min-hash similarity {:.5} (z = {:.1}, confirm z = {:.1})", c.a, c.b, l, m, mean, tt, target, z, z2),
+                        json!({"kind": "e2e-reseeded", "name": c.name, "l": l, "m": m}),
+                    );
+                }
+                edetails.push(json!({"pair": c.name, "l": l, "m": m, "labellings": tt, "target": target, "mean": mean, "se": se, "z": z, "reseeded": true}));
+            }
+        }
+    }
+    RESEED.store(false, std::sync::atomic::Ordering::Relaxed);
     // pass-through hasher, consecutive label hashes, pairs with repeated elements
     for c in catalogue().iter().filter(|c| ["suite-pattern-1", "alternating", "repeat-block"].contains(&c.name)) {
         for l in 1..=c.max_l.min(3) {
